@@ -1,10 +1,14 @@
 (* C03: valued A/L rows are mark-to-market within the truncation allowance; a missing price fails.
    Every row of the asset/liability section on which an asset/liability account of the journal lands
    (itself without --mapping/--remap; the row remap and the first matching mapping rule send it to
-   otherwise) is compared with Spec.ValuationMappedSpec.mtm_row_mapped: the sum over the accounts
-   that land on the row (Spec.MarkToMarketMappedSpec.sources_of) of ValuationSpec.mtm_expected,
-   within the sum of ValuationSpec.step_bound (C03_windowed_mapped, C03_model_meets_spec_mapped;
-   for a row with the single source itself this is mtm_row of C03_model_meets_spec).  An
+   otherwise) is compared with Spec.ValuationWhereSpec.mtm_row_where_mapped: the sum over the accounts
+   that land on the row and pass --account (Spec.MarkToMarketMappedSpec.sources_of) of
+   mtm_expected_where (the mark-to-market change of the held commodities that pass --commodity, at
+   the prices of the whole journal), within the sum of step_bound_where
+   (C03_windowed_mapped_where, C03_model_meets_spec_where_mapped: every configuration; without
+   filters this is mtm_row_mapped of C03_model_meets_spec_mapped, and for a row with the single
+   source itself mtm_row of C03_model_meets_spec).  A printed row on which no account that passes
+   --account lands must be empty (C03_filtered_out_row_zero).  An
    expectation that is undefined although a report was printed is a failure
    (C03_expected_defined).  An empty cell is the value 0; a row that is not printed is 0 in every
    column.
@@ -41,14 +45,15 @@ let reconstruct (cands : (string list, unit) Hashtbl.t) (names : string list) : 
   go [] [] names
 
 type stats = { mutable plain : int; mutable mapped : int; mutable absent : int; mutable ambiguous : int;
-               mutable nosrc : int; mutable nonal : int; mutable undefined : int; mutable bypath : int }
+               mutable nosrc : int; mutable nonal : int; mutable undefined : int; mutable bypath : int;
+               mutable filt : int; mutable zero : int }
 
 let () =
   register "C03.bal" (fun inp obs ->
     let (c, j) = split_input inp in
     let cfg = decode_cfg c in
     let model = run_balance inp in
-    let st = { plain = 0; mapped = 0; absent = 0; ambiguous = 0; nosrc = 0; nonal = 0; undefined = 0; bypath = 0 } in
+    let st = { plain = 0; mapped = 0; absent = 0; ambiguous = 0; nosrc = 0; nonal = 0; undefined = 0; bypath = 0; filt = 0; zero = 0 } in
     let spec =
       match K.parse_directives (decode_journal j) with
       | K.MOk dl ->
@@ -97,16 +102,35 @@ let () =
              let window_empty =
                (let c = K.clip { K.p_start = cfg.bc.K.bc_from; K.p_end = cfg.bc.K.bc_to } (K.journal_period dl) in
                 K.Z.ltb c.K.p_end c.K.p_start) in
-             (* ... and of accounts and commodities that pass the --account / --commodity filters (cfg_where): with a
-                filter the expectation would have to be restricted to the commodities shown; such reports are compared
-                with the model only *)
+             (* --account / --commodity: the filters are the Where predicate of the report's query, so a row shows, of
+                the accounts that land on it and pass --account (sources_of), the commodities that pass --commodity;
+                prices and quantities are those of the whole journal.  mtm_row_where_mapped is that expectation
+                (C03_model_meets_spec_where_mapped: no hypothesis on the filters; without filters it is mtm_row_mapped,
+                C03_where_mapped_unfiltered) *)
              let filtered = cfg.bc.K.bc_accounts <> [] || cfg.bc.K.bc_commodities <> [] in
              List.iter (fun b ->
-               if !verdict = "ok" && not window_empty && not filtered then begin
-                 match K.mtm_row_mapped cfg.bc dl b with
+               if !verdict = "ok" && not window_empty then begin
+                 match K.mtm_row_where_mapped cfg.bc dl b with
                  | None -> fail "FAIL:a report was printed but the window of the specification does not exist"
                  | Some (srcs, exps) ->
-                   if srcs = [] then st.nosrc <- st.nosrc + 1
+                   if srcs = [] then begin
+                     st.nosrc <- st.nosrc + 1;
+                     (* no account that passes --account lands on b: the row, if it is printed at all (it may be an inner
+                        node of the tree), is empty in every column (C03_filtered_out_row_zero) *)
+                     if K.is_AL b then
+                       (match paths with
+                        | Some ps ->
+                          let pb = path_of b in
+                          (match List.filter (fun (p, _) -> p = pb) (List.combine ps al_rows) with
+                           | (_, _ :: cells) :: _ ->
+                             st.zero <- st.zero + 1;
+                             List.iter (fun cell ->
+                               if cell <> "" && not (K.within_bound (dec_of cell) (dec_of "0") (z_of_int 0)) then
+                                 fail (Printf.sprintf "FAIL:row %s shows %s although no account that passes --account lands on it"
+                                         (String.concat ":" pb) cell)) cells
+                           | _ -> ())
+                        | None -> ())
+                   end
                    else if not (K.is_AL b) || List.exists (fun a -> not (K.is_AL a)) srcs then st.nonal <- st.nonal + 1
                    else begin
                      let is_mapped = not (match srcs with [a] -> K.acc_eqb a b | _ -> false) in
@@ -127,6 +151,7 @@ let () =
                      | None -> ()
                      | Some cells ->
                        if is_mapped then st.mapped <- st.mapped + 1 else st.plain <- st.plain + 1;
+                       if filtered then st.filt <- st.filt + 1;
                        let name = String.concat ":" (path_of b) in
                        let what = if is_mapped
                          then Printf.sprintf "row %s (= %s)" name (String.concat " + " (List.map (fun a -> string_of_str (K.acc_name a)) srcs))
@@ -149,6 +174,6 @@ let () =
            end)
       | _ -> if obs = "ERR" then "ok" else "FAIL:journal rejected by the model's directive conversion"
     in
-    let suffix = Printf.sprintf " ##C03 plain=%d mapped=%d absent=%d ambiguous=%d nosrc=%d nonal=%d undefined=%d bypath=%d"
-                   st.plain st.mapped st.absent st.ambiguous st.nosrc st.nonal st.undefined st.bypath in
+    let suffix = Printf.sprintf " ##C03 plain=%d mapped=%d absent=%d ambiguous=%d nosrc=%d nonal=%d undefined=%d bypath=%d filtered=%d zero=%d"
+                   st.plain st.mapped st.absent st.ambiguous st.nosrc st.nonal st.undefined st.bypath st.filt st.zero in
     (model ^ suffix, spec))
